@@ -178,7 +178,7 @@ CLAIMS = {
                 'values the steps reach (or the elements of the array a single-valued path reaches), never when they reach nothing, its result '
                 'is the single result and the filter functions after it apply left to right; C14_functions_after_filters_from_text (FiltFun.v): '
                 'the steps before the functions may be filters of every kind FiltChain covers (results g(f(v)) over the values the steps and '
-                'filters reach; C14_calls_after_filters_from_text: the call log is exactly those calls, the filters calling nothing; C14_aggregate_after_filters_from_text (FiltAgg.v): an aggregate after steps and filters receives all the values they reach, once; C14_aggregate_calls_after_filters_from_text: its call log; C14_functions_without_dollar_from_text / C14_aggregate_without_dollar_from_text (NoDollarFun.v, NoDollarAgg.v): the same results when the leading $ is omitted); the harness sends such texts '
+                'filters reach; C14_calls_after_filters_from_text: the call log is exactly those calls, the filters calling nothing; C14_aggregate_after_filters_from_text (FiltAgg.v): an aggregate after steps and filters receives all the values they reach, once; C14_aggregate_calls_after_filters_from_text: its call log; C14_functions_without_dollar_from_text / C14_aggregate_without_dollar_from_text (NoDollarFun.v, NoDollarAgg.v), with C14_calls_without_dollar_from_text / C14_aggregate_calls_without_dollar_from_text: the same results and call logs when the leading $ is omitted); the harness sends such texts '
                 '(the driver confirms they are Coq chain_fun_path) with calls and results expected from walking the document. The driver also '
                 'compares the model call log with the specification call log on every generated case. Functions inside filter operands '
                 '(short-circuited by design) are outside the theorem and compared with the model call by call; direct protocol oracle '
